@@ -8,10 +8,13 @@ require (
 	github.com/dolthub/go-mysql-server v0.0.0
 	github.com/dolthub/vitess v0.0.0-20260819175407-19559ab533b7
 	github.com/go-sql-driver/mysql v1.9.3
+	github.com/sirupsen/logrus v1.8.3
+	golang.org/x/sync v0.20.0
 	pgregory.net/rapid v1.3.0
 )
 
 require (
+	filippo.io/edwards25519 v1.1.1 // indirect
 	github.com/cespare/xxhash/v2 v2.3.0 // indirect
 	github.com/dolthub/flatbuffers/v23 v23.3.3-dh.2 // indirect
 	github.com/dolthub/go-icu-regex v0.0.0-20260610153742-72563bc7ca83 // indirect
@@ -21,10 +24,8 @@ require (
 	github.com/lestrrat-go/strftime v1.2.0 // indirect
 	github.com/pkg/errors v0.9.1 // indirect
 	github.com/pmezard/go-difflib v1.0.0 // indirect
-	github.com/sirupsen/logrus v1.8.3 // indirect
 	go.opentelemetry.io/otel v1.41.0 // indirect
 	go.opentelemetry.io/otel/trace v1.41.0 // indirect
-	golang.org/x/sync v0.20.0 // indirect
 	golang.org/x/sys v0.45.0 // indirect
 	golang.org/x/text v0.37.0 // indirect
 	golang.org/x/tools v0.45.0 // indirect
